@@ -9,9 +9,6 @@ From PG Require Import Common.Tactics Model.SymCoreDefs Model.SymCoreOps Model.S
 From PG Require Model.PyList Model.PyDict.
 Local Open Scope Z_scope.
 
-Lemma plain_rv_ok : forall rv, plain_rv rv -> rv_ok rv.
-Proof. destruct rv; simpl; auto; try contradiction. destruct l; auto; contradiction. Qed.
-
 Lemma write_loop_wfs : forall q sc ivs st ps upd st' u e,
   wfs st -> Forall (fun iv => rv_ok (snd iv)) ivs -> write_loop q sc st ps ivs upd = (st', u, e) -> wfs st'.
 Proof.
@@ -44,7 +41,7 @@ Proof.
 Qed.
 
 Section StepX.
-Variables (q : quirks) (r : nat) (tid : N) (fl : flags).
+Variables (q : quirks) (ps : pos) (tid : N) (pa : option N) (fl : flags).
 Hypothesis NQ : no_quirks q.
 
 (* the Python call of an operation of the extension *)
@@ -64,80 +61,46 @@ Proof.
   - eexists; split; [reflexivity|]; simpl; auto.
 Qed.
 
-Lemma exec_x_wfs_root : forall sc st its rx st' out,
-  wfs st -> root_is st r tid KList fl its -> clean its -> permits sc fl -> plain_xop rx -> xkind_ok KList rx = true -> is_result_xop rx = false ->
-  exec_x q sc st (r, []) fl its rx = (st', out) -> wfs st'.
-Proof.
-  intros sc st its rx st' out W R C [SL AW] PL KO NR E.
-  destruct rx; simpl in KO, NR, PL; try discriminate; unfold exec_x in E; rewrite SL, AW in E; cbn [negb] in E.
-  - destruct (PyList.slice_indices a b c (zlen its)) as [[[start stop] step]|] eqn:SI; [|inv E; auto].
-    assert (OKS : Forall rv_ok vs) by (eapply Forall_impl; [|exact PL]; apply plain_rv_ok).
-    destruct (step =? 1) eqn:S1.
-    + destruct (write_loop q sc st (r, []) (slice_writes start (Z.max start stop) vs) false) as [[st1 upd] err] eqn:WL.
-      pose proof (write_loop_wfs _ _ _ _ _ _ _ _ _ W (slice_writes_ok _ _ _ OKS) WL) as W1.
-      destruct err; [inv E; auto|].
-      destruct (ldel_many st1 (r, []) (fun i => (start + zlen vs <=? i) && (i <? Z.max start stop))) as [st2 del] eqn:DM.
-      assert (NN : 0 <= zlen its) by (unfold zlen; lia).
-      destruct (PyListFacts.slice_indices_bounds _ _ _ _ _ _ _ NN SI) as (NZ & BP & BM). destruct (BP ltac:(lia)) as [B1 B2].
-      destruct (write_loop_splice q sc r tid fl vs st its false start (Z.max start stop) st1 upd None R C PL ltac:(lia) ltac:(lia) WL)
-        as (_ & its1 & R1 & _).
-      assert (W2 : wfs st2).
-      { eapply ldel_many_wfs; [exact W1| |exact DM]. rewrite get_at_root. exact R1. }
-      inv E. destruct ((upd || del) && notify_on sc); auto using fix_chain_wfs.
-    + destruct (negb (Nat.eqb (length (PyList.slice_range start stop step)) (length vs))); [inv E; auto|].
-      match type of E with context [write_loop ?a ?b ?c ?d ?e ?f] => destruct (write_loop a b c d e f) as [[st1 upd] err] eqn:WL end.
-      assert (W1 : wfs st1).
-      { eapply write_loop_wfs; [exact W| |exact WL].
-        assert (Forall (fun iv : Z * rvalue => rv_ok (snd iv)) (PyList.zip (PyList.slice_range start stop step) vs)).
-        { generalize (PyList.slice_range start stop step). clear - OKS. induction vs; destruct l; simpl; auto. inv OKS. constructor; auto. }
-        destruct (step <? 0); auto. apply Forall_rev; auto. }
-      destruct err; inv E; auto. destruct (upd && notify_on sc); auto using fix_chain_wfs.
-  - destruct (PyList.slice_indices a b c (zlen its)) as [[[start stop] step]|] eqn:SI; [|inv E; auto].
-    destruct (ldel_many st (r, []) (fun i => PyList.zmem i (PyList.slice_range start stop step))) as [st1 del] eqn:DM.
-    assert (W1 : wfs st1) by (eapply ldel_many_wfs; [exact W| |exact DM]; rewrite get_at_root; exact R).
-    inv E. destruct (del && notify_on sc); auto using fix_chain_wfs.
-Qed.
-
-(* one step of the extension on a root list *)
+(* one step of the extension on a list *)
 Theorem step_x_list_refines : forall st its sc x lo,
-  wfs st -> root_is st r tid KList fl its -> clean its -> permits sc fl ->
+  wfs st -> at_is st ps tid KList pa fl its -> clean its -> anc_clean st ps -> permits sc fl ->
   vplain_xop x = true -> vxlop_of x = Some lo ->
-  wfs (fst (step2 q st (Ext sc (r, []) x))) /\
+  wfs (fst (step2 q st (Ext sc ps x))) /\
   exists its',
-    root_is (fst (step2 q st (Ext sc (r, []) x))) r tid KList fl its' /\ clean its' /\
+    at_is (fst (step2 q st (Ext sc ps x))) ps tid KList pa fl its' /\ clean its' /\ anc_clean (fst (step2 q st (Ext sc ps x))) ps /\
     evals its' = PyList.lstate pv_pyeq (evals its) lo /\
-    out_class (snd (step2 q st (Ext sc (r, []) x))) (py_lstep (evals its) lo).
+    out_class (snd (step2 q st (Ext sc ps x))) (py_lstep (evals its) lo).
 Proof.
-  intros st its sc x lo W R C PM P L.
+  intros st its sc x lo W R C A PM P L.
   destruct (resolve_xlop st x lo P L) as (rx & RX & PL & LO & KO & NR).
   assert (KO' : xkind_ok KList x = true) by (destruct x; simpl in *; try discriminate; auto).
-  assert (SX : step_x q st sc (r, []) x =
-               (gc (length (roots st)) (next_id st) (is_result_xop rx) (fst (exec_x q sc st (r, []) fl its rx)),
-                snd (exec_x q sc st (r, []) fl its rx))).
-  { unfold step_x. rewrite get_at_root. unfold root_is in R. rewrite R. rewrite KO', RX. cbn [negb].
-    destruct (exec_x q sc st (r, []) fl its rx); reflexivity. }
+  assert (SX : step_x q st sc ps x =
+               (gc (length (roots st)) (next_id st) (is_result_xop rx) (fst (exec_x q sc st ps fl its rx)),
+                snd (exec_x q sc st ps fl its rx))).
+  { unfold step_x. unfold at_is in R. rewrite R. rewrite KO', RX. cbn [negb].
+    destruct (exec_x q sc st ps fl its rx); reflexivity. }
   unfold step2. rewrite SX.
-  destruct (exec_x q sc st (r, []) fl its rx) as [st1 out] eqn:E. cbn [fst snd].
-  pose proof (exec_x_list_refines q sc r tid fl st its rx lo st1 out R C PM PL LO E) as H.
-  pose proof (exec_x_wfs_root sc st its rx st1 out W R C PM PL KO NR E) as W1.
-  pose proof (get_root_lt _ _ _ R) as LT.
-  split. { apply gc_wfs; auto. }
+  destruct (exec_x q sc st ps fl its rx) as [st1 out] eqn:E. cbn [fst snd].
+  pose proof (exec_x_list_refines q sc ps tid pa fl st its rx lo st1 out W R C A PM PL LO E) as H.
+  pose proof (get_at_lt _ _ _ R) as LT.
   unfold PyList.lstate. fold (py_lstep (evals its) lo).
   destruct (py_lstep (evals its) lo) as [[l' ret]|e].
-  - destruct H as [(its' & R' & C' & E' & K') RA].
+  - destruct H as [(its' & R' & C' & E' & K' & A' & W') RA].
+    split. { apply gc_wfs; auto. }
     exists its'. repeat split; auto.
-    + apply get_root_gc; auto.
+    + apply get_at_gc; auto.
+    + eapply anc_clean_gc; eauto.
     + destruct out; simpl; auto. destruct ret; simpl in RA; try contradiction; try discriminate;
         repeat match goal with H : exists _, _ |- _ => destruct H end; intuition discriminate.
-  - destruct H as [ES EO]. subst. rewrite NR, gc_same.
+  - destruct H as [ES EO]. subst. rewrite NR, gc_same. split; auto.
     exists its. repeat split; auto.
 Qed.
 End StepX.
 
 (* --- histories over the whole list API: the base catalogue and the slice operations ------------------------------------------------- *)
 Inductive hop : Type := HB (o : op value) | HX (x : xop value).
-Definition hop2 (sc : scope) (r : nat) (h : hop) : op2 :=
-  match h with HB o => Base (mkSop sc (r, []) o) | HX x => Ext sc (r, []) x end.
+Definition hop2 (sc : scope) (ps : pos) (h : hop) : op2 :=
+  match h with HB o => Base (mkSop sc ps o) | HX x => Ext sc ps x end.
 Definition hlop_of (h : hop) : option (PyList.lop pv) := match h with HB o => vlop_of o | HX x => vxlop_of x end.
 Definition hplain (l : list pv) (h : hop) : bool := match h with HB o => vplain_lop l o | HX x => vplain_xop x end.
 Fixpoint lhist2_ok (fl : flags) (l : list pv) (h : list (scope * hop)) : Prop :=
@@ -152,38 +115,39 @@ Fixpoint lhist2_py (l : list pv) (h : list (scope * hop)) : list pv :=
   | [] => l
   | (_, o) :: h' => match hlop_of o with Some lo => lhist2_py (PyList.lstate pv_pyeq l lo) h' | None => l end
   end.
-Definition on_root2 (r : nat) (h : list (scope * hop)) : list op2 := map (fun so => hop2 (fst so) r (snd so)) h.
+Definition on_pos2 (ps : pos) (h : list (scope * hop)) : list op2 := map (fun so => hop2 (fst so) ps (snd so)) h.
 
 Section History2.
-Variables (q : quirks) (r : nat) (tid : N) (fl : flags).
+Variables (q : quirks) (ps : pos) (tid : N) (pa : option N) (fl : flags).
 Hypothesis NQ : no_quirks q.
 
 Theorem history2_list_refines : forall h st its,
-  wfs st -> root_is st r tid KList fl its -> clean its -> lhist2_ok fl (evals its) h ->
-  exists its', root_is (run_ops2 q st (on_root2 r h)) r tid KList fl its' /\ clean its' /\ wfs (run_ops2 q st (on_root2 r h)) /\
-               evals its' = lhist2_py (evals its) h.
+  wfs st -> at_is st ps tid KList pa fl its -> clean its -> anc_clean st ps -> lhist2_ok fl (evals its) h ->
+  exists its', at_is (run_ops2 q st (on_pos2 ps h)) ps tid KList pa fl its' /\ clean its' /\ anc_clean (run_ops2 q st (on_pos2 ps h)) ps /\
+               wfs (run_ops2 q st (on_pos2 ps h)) /\ evals its' = lhist2_py (evals its) h.
 Proof.
-  induction h as [|[sc o] h IH]; intros st its W R C OK; simpl in *.
+  induction h as [|[sc o] h IH]; intros st its W R C A OK; simpl in *.
   - exists its; auto.
   - destruct OK as (PM & P & lo & L & OK'). rewrite L.
-    assert (S1 : wfs (fst (step2 q st (hop2 sc r o))) /\
-                 exists its1, root_is (fst (step2 q st (hop2 sc r o))) r tid KList fl its1 /\ clean its1 /\
+    assert (S1 : wfs (fst (step2 q st (hop2 sc ps o))) /\
+                 exists its1, at_is (fst (step2 q st (hop2 sc ps o))) ps tid KList pa fl its1 /\ clean its1 /\
+                              anc_clean (fst (step2 q st (hop2 sc ps o))) ps /\
                               evals its1 = PyList.lstate pv_pyeq (evals its) lo).
     { destruct o as [o|x]; simpl in *.
-      - destruct (step_list_refines q r tid fl NQ st its sc o lo W R C PM P L) as (its1 & R1 & C1 & E1 & _).
+      - destruct (step_list_refines q ps tid pa fl NQ st its sc o lo W R C A PM P L) as (its1 & R1 & C1 & A1 & E1 & _).
         split; [apply step_wfs; auto|]. exists its1; auto.
-      - destruct (step_x_list_refines q r tid fl st its sc x lo W R C PM P L) as (W1 & its1 & R1 & C1 & E1 & _).
+      - destruct (step_x_list_refines q ps tid pa fl st its sc x lo W R C A PM P L) as (W1 & its1 & R1 & C1 & A1 & E1 & _).
         split; auto. exists its1; auto. }
-    destruct S1 as (W1 & its1 & R1 & C1 & E1).
-    unfold run_ops2 in *. 
-    rewrite <- E1 in OK'. destruct (IH _ its1 W1 R1 C1 OK') as (its' & R' & C' & W' & E').
+    destruct S1 as (W1 & its1 & R1 & C1 & A1 & E1).
+    unfold run_ops2 in *.
+    rewrite <- E1 in OK'. destruct (IH _ its1 W1 R1 C1 A1 OK') as (its' & R' & C' & A' & W' & E').
     exists its'. repeat split; auto. rewrite E', E1. reflexivity.
 Qed.
 Corollary history2_list_erase : forall h st its,
-  wfs st -> root_is st r tid KList fl its -> clean its -> lhist2_ok fl (evals its) h ->
-  option_map erase (get_root (run_ops2 q st (on_root2 r h)) r) = Some (plist (lhist2_py (evals its) h)).
+  wfs st -> at_is st ps tid KList pa fl its -> clean its -> anc_clean st ps -> lhist2_ok fl (evals its) h ->
+  option_map erase (get_at (run_ops2 q st (on_pos2 ps h)) ps) = Some (plist (lhist2_py (evals its) h)).
 Proof.
-  intros. destruct (history2_list_refines h st its H H0 H1 H2) as (its' & R' & C' & W' & E').
-  rewrite R'. simpl. f_equal. rewrite <- E'. eapply erase_list_node; eauto.
+  intros. destruct (history2_list_refines h st its H H0 H1 H2 H3) as (its' & R' & C' & A' & W' & E').
+  rewrite R'. simpl. f_equal. rewrite <- E'. eapply erase_list_at; eauto.
 Qed.
 End History2.
